@@ -148,6 +148,7 @@ func scenC02(r *Run) {
 	serve(vOutbox, outboxDoc)
 	// an open redirect on the honest host
 	f.ServeRaw("https://"+H1+"/redirect?to=evil", Redirect(302, "https://"+E+"/forged/viaopen"))
+	f.ServeRaw("https://"+H1+"/redirect?to=evil2", Redirect(302, "https://"+E+"/forged/viaopen2"))
 
 	sibling := t.Chance(1, 3)
 	if sibling {
@@ -206,7 +207,33 @@ func scenC02(r *Run) {
 			lie["summary"] = "<p>FORGED BIO</p>"
 		}
 		seq++
-		switch t.Draw(10) {
+		switch t.Draw(11) {
+		case 10:
+			// the id is an open redirect on the victim's host that lands on an attacker document
+			// which states no id at all: whatever is made of that document, it is not the victim
+			// host's object
+			rid := "https://" + H1 + "/redirect?to=evil2"
+			l2 := Doc{}
+			for k, val := range lie {
+				l2[k] = val
+			}
+			delete(l2, "id")
+			serve("https://"+E+"/forged/viaopen2", l2)
+			l3 := Doc{}
+			for k, val := range lie {
+				l3[k] = val
+			}
+			l3["id"] = rid
+			u := fmt.Sprintf("https://%s/forged/%d", E, seq)
+			serve(u, l3)
+			entry = append(entry, u)
+			switch t.Draw(3) {
+			case 0:
+				return Doc{"id": rid}, "stub-whose-id-is-victim-open-redirect-to-idless-forgery"
+			case 1:
+				return l3, "embedded-whose-id-is-victim-open-redirect-to-idless-forgery"
+			}
+			return u, "attacker-url-whose-id-is-victim-open-redirect-to-idless-forgery"
 		case 9:
 			// the id itself is an open redirect on the victim's host: re-fetching it lands on the
 			// attacker, who serves a body claiming exactly that id
@@ -229,6 +256,18 @@ func scenC02(r *Run) {
 			return Doc{"id": vic.id, "type": lie["type"]}, "stub-with-type"
 		case 3:
 			u := fmt.Sprintf("https://%s/forged/%d", E, seq)
+			entry = append(entry, u)
+			if t.Chance(1, 2) {
+				// response headers that name the victim's address as where this came from or belongs:
+				// only the connection says who served a body
+				var extra []string
+				for k := 1 + t.Draw(2); k > 0; k-- {
+					extra = append(extra, []string{"Content-Location: " + vic.id, "Link: <" + vic.id + ">; rel=\"canonical\"", "Location: " + vic.id, "Content-Base: " + vic.id,
+						"X-Original-URL: " + vic.id, "content-location: " + vic.id}[t.Draw(6)])
+				}
+				f.ServeRaw(u, HTTPResponse("HTTP/1.0 200 OK", append([]string{"Content-Type: application/activity+json"}, extra...), mustJSON(stamp(lie, E)), "\r\n"))
+				return u, "attacker-url-serving-victim-id-with-headers-naming-the-victim"
+			}
 			serve(u, lie)
 			return u, "attacker-url-serving-victim-id"
 		case 4:
